@@ -735,6 +735,9 @@ class ParallelProcess(Process):
         self._ended = False
         self._pending_command: Optional[
             Tuple[str, Optional[tuple], Optional[dict]]] = None
+        # Result of a command that was still in flight when end() was
+        # called, kept for the caller that will ask for it.
+        self._result_at_end: Optional[Tuple[Any]] = None
 
     def send_command(
             self, command: str, args: Optional[tuple] = None,
@@ -761,6 +764,9 @@ class ParallelProcess(Process):
         Returns:
             The command result.
         """
+        if self._ended and self._result_at_end is not None:
+            (result,), self._result_at_end = self._result_at_end, None
+            return result
         if not self._pending_command:
             raise RuntimeError(
                 'Trying to retrieve command result, but no command is '
@@ -837,6 +843,10 @@ class ParallelProcess(Process):
         # Only end once.
         if self._ended:
             return
+        if self._pending_command:
+            # Collect the result of the command in flight so that the
+            # child is ready to receive the 'end' command.
+            self._result_at_end = (self.get_command_result(),)
         self.send_command('end')
         if self.profile:
             stats = pstats.Stats()
